@@ -131,26 +131,24 @@ def check(prop, tier, verif_seed, max_runs=None, budget=None, nworkers=None, wri
     pool = runner.Pool(nworkers, hashseed="0", scratch=scratch)
     cap = getattr(mod, "WALL_CAP", 60)
     try:
-        k = 0
-        chunk = max(nworkers * 4, 32)
         deadline = t0 + bwall
         harness = []
-        while k < bmax and time.time() < deadline:
-            n = min(chunk, bmax - k)
-            cdocs = [mod.generate(kernel.run_seed(verif_seed, prop, tier, k + i), tier, k + i) for i in range(n)]
-            reqs = [{"prop": prop, "doc": d, "wall_cap": cap} for d in cdocs]
-            res = pool.map(reqs, stop=lambda: time.time() > deadline + 30)
-            for d, r in zip(cdocs, res):
-                if r is None:
-                    continue
-                docs.append(d)
-                results.append(r)
-                stats[r["outcome"]] = stats.get(r["outcome"], 0) + 1
-                if r["outcome"] == "harness_error":
-                    harness.append((d, r))
-            k += n
-            if len(harness) > 5:
-                break
+
+        def make_req(k):
+            d = mod.generate(kernel.run_seed(verif_seed, prop, tier, k), tier, k)
+            return {"prop": prop, "doc": d, "wall_cap": cap}
+
+        nh = [0]
+
+        def stop():
+            return time.time() > deadline
+
+        for k, req, r in pool.stream(make_req, stop, bmax):
+            docs.append(req["doc"])
+            results.append(r)
+            stats[r["outcome"]] = stats.get(r["outcome"], 0) + 1
+            if r["outcome"] == "harness_error":
+                harness.append((req["doc"], r))
         explore_s = time.time() - t0
         # determinism sample: same documents, fresh interpreters, other PYTHONHASHSEED
         nd = {"quick": 8, "thorough": 64}[tier]
